@@ -9,4 +9,4 @@ Extraction Language OCaml.
 Extraction "layout_model.ml"
   N.add N.mul N.div_eucl N.eqb N.of_nat
   x86_64 std_masks plat_ok masks_ok
-  dcase_ok lcase_ok lcase_predict tcase_ok bcase_ok bcase_predict.
+  dcase_ok lcase_ok lcase_predict tcase_ok bcase_ok bcase_predict bcase_layout_ok.
